@@ -133,7 +133,10 @@ impl Relation for ZkirRelation {
         };
 
         ZkStdLibArch {
-            jubjub: involves_types(&[IrType::JubjubPoint, IrType::JubjubScalar]),
+            // Jubjub values can also enter a program as constants.
+            jubjub: involves_types(&[IrType::JubjubPoint, IrType::JubjubScalar])
+                || (self.program.instructions.iter())
+                    .any(|instr| instr.inputs.iter().any(|name| name.starts_with("Jubjub"))),
             poseidon: operations.iter().any(|op| matches!(op, Poseidon)),
             sha2_256: operations.iter().any(|op| matches!(op, Sha256)),
             sha2_512: operations.iter().any(|op| matches!(op, Sha512)),
